@@ -321,6 +321,10 @@ func c08Run(c *Ctx) {
 	if c.Idx == 0 {
 		c08StringProbe(c)
 	}
+	if c.Idx%16 == 9 {
+		c08Shared(c)
+		return
+	}
 	var req mon.OpReq
 	var exp Expect
 	ok := false
